@@ -112,6 +112,10 @@ def frames():
         fr[k] = m
     for k, m in alph.NEAR.items():
         fr[k] = m
+    # about ONE lab axis by an angle that is not a multiple of 90 degrees (an orthorhombic
+    # tensor then looks monoclinic about that axis; seed C12i)
+    for ax_, ang in (("z", 25.0), ("x", 40.0), ("y", 65.0), ("z", 45.0)):
+        fr[f"lab_{ax_}{ang:g}"] = alph.rot_axis({"x": [1, 0, 0], "y": [0, 1, 0], "z": [0, 0, 1]}[ax_], np.radians(ang))
     if alph.TIER == "thorough":
         for (cn, c), (gn, g) in itertools.product(list(alph.CUBE.items())[1:], alph.GEN.items()):
             fr[f"{cn}*{gn}"] = c @ g
